@@ -159,6 +159,8 @@ class Hand(twisted.internet.protocol.Protocol):
             dawgie.pl.message.send(self._abort, self)
             log.warning('Worker and pipeline revisions are not the same.')
             self.transport.loseConnection()
+            if self in _workers:
+                _workers.remove(self)
         else:
             if self not in _workers:
                 _workers.append(self)
